@@ -24,6 +24,9 @@ ASSUMPTIONS = ["count = elapsed periods: the worker runs at least once per deadl
                "DataReaderAsync::get_requested_deadline_missed_status is todo!() on this tree: the reader count is "
                "observed through the listener and the status condition",
                "the oracle allows the miss of a period that elapsed within the last 50 ms to be still unreported",
+               "offered side: the periods of an instance are counted from the NEWEST source timestamp written so far "
+               "(write_w_timestamp with an older timestamp does not restart or move back the period); requested side: "
+               "from the reception time of the last sample, whatever its source timestamp",
                "the harness rounds a requested timer delay of 0 up to 1 ns (the simulated clock stands still while the "
                "worker runs; at an exact deadline boundary the real worker asks for delay(0) until the clock moves)"]
 
@@ -44,6 +47,7 @@ def gen_case(r, big):
     ops.append(("R", rd))
     ops.append(("net",))
     now = T0
+    last_ts = {}  # (writer, key) -> newest source timestamp written so far
     dirty = False  # announcements / heartbeats queued since the last `net`
     undelivered = False  # a DATA datagram is queued
     for _ in range(r.randint(3, 12 if big else 8)):
@@ -56,7 +60,21 @@ def gen_case(r, big):
                 dirty = False
                 undelivered = False
             w = r.randrange(nw)
-            ops.append(("w", w, r.choice([1, 1, 2, 3])))
+            key = r.choice([1, 1, 2, 3])
+            ts = None
+            prev = last_ts.get((w, key))
+            q = r.random()
+            if prev is not None and q < 0.4:
+                # write_w_timestamp with an OLDER source timestamp than an earlier sample of the same
+                # instance (late / replayed data): the deadline reference of the instance must not
+                # move backwards (offered side); the reader's reference is the reception time
+                d = wds[w]
+                ts = max(0, prev - r.choice([1, d // 2, d, d + 1, 2 * d, 3 * d + 7, 5 * d]))
+            elif prev is None and q < 0.15:
+                ts = max(0, now - r.choice([1, wds[w] // 2, wds[w] - 1]))  # first sample, a bit old
+            ops.append(("w", w, key, ts))
+            tsv = now if ts is None else ts
+            last_ts[(w, key)] = tsv if prev is None else max(prev, tsv)
             undelivered = True
             if r.random() < 0.75:
                 ops.append(("net",))
@@ -95,12 +113,24 @@ def corpus():
     return [
         # regression (fixed C30-reader-no-rearm): one sample, then 330 ms of silence with a 100 ms reader
         # deadline: 3 reports (it used to be 7)
-        (1000, (("W", D), ("R", D), ("net",), ("w", 0, 1), ("net",), ("adv", 330 * MS), ("net",), ("odm", 0), ("scr",))),
+        (1000, (("W", D), ("R", D), ("net",), ("w", 0, 1, None), ("net",), ("adv", 330 * MS), ("net",), ("odm", 0), ("scr",))),
         # samples keep arriving within the period: no miss on either side
-        (1000, (("W", D), ("R", D), ("net",), ("w", 0, 1), ("net",), ("adv", 90 * MS), ("w", 0, 1), ("net",),
-                ("adv", D), ("w", 0, 1), ("net",), ("adv", 99999999), ("odm", 0), ("scr",))),
+        (1000, (("W", D), ("R", D), ("net",), ("w", 0, 1, None), ("net",), ("adv", 90 * MS), ("w", 0, 1, None), ("net",),
+                ("adv", D), ("w", 0, 1, None), ("net",), ("adv", 99999999), ("odm", 0), ("scr",))),
+        # seeded change C30b: a later write on the SAME instance with an older source timestamp must not
+        # move the offered-deadline reference backwards: samples keep arriving every 40 ms (period
+        # 100 ms), no miss on either side; then silence: one miss per period counted from the NEWEST
+        # timestamp
+        (1000, (("W", D), ("R", D), ("net",), ("w", 0, 1, None), ("net",), ("adv", 40 * MS), ("w", 0, 1, T0 - 250 * MS), ("net",),
+                ("adv", 40 * MS), ("w", 0, 1, T0 - 90 * MS), ("net",), ("adv", 40 * MS), ("odm", 0), ("w", 0, 1, None), ("net",),
+                ("adv", 50 * MS), ("w", 0, 1, T0 - 500 * MS), ("net",), ("adv", 49 * MS), ("odm", 0), ("adv", 230 * MS), ("net",),
+                ("odm", 0), ("scr",))),
+        # the same on two instances, the older timestamp on the other instance does not matter
+        (1000, (("W", D), ("R", D), ("net",), ("w", 0, 1, None), ("net",), ("w", 0, 2, None), ("net",), ("adv", 60 * MS),
+                ("w", 0, 2, T0 - 300 * MS), ("net",), ("w", 0, 1, T0 - 10 * MS), ("net",), ("adv", 39 * MS), ("odm", 0),
+                ("adv", 100 * MS), ("net",), ("odm", 0), ("scr",))),
         # a 50 ms reader deadline is counted once per period (worker wakes once per poke period)
-        (1000, (("W", 50 * MS), ("R", 50 * MS), ("net",), ("w", 0, 1), ("net",), ("adv", 260 * MS), ("net",), ("odm", 0), ("scr",))),
+        (1000, (("W", 50 * MS), ("R", 50 * MS), ("net",), ("w", 0, 1, None), ("net",), ("adv", 260 * MS), ("net",), ("odm", 0), ("scr",))),
     ]
 
 
@@ -113,7 +143,7 @@ def case_line(c):
         elif o[0] == "R":
             parts.append("R 0 0 rel=1 lis=1 dl=%d" % o[1])
         elif o[0] == "w":
-            parts.append("w %d %d 8 1" % (o[1], o[2]))
+            parts.append("w %d %d 8 1%s" % (o[1], o[2], "" if o[3] is None else " %d" % o[3]))
         elif o[0] == "adv":
             parts.append("adv %d" % o[1])
         elif o[0] == "odm":
@@ -135,7 +165,7 @@ def parse_line(line):
             kv = dict(x.split("=") for x in t[3:])
             out.append((t[0], int(kv["dl"])))
         elif t[0] == "w":
-            out.append(("w", int(t[1]), int(t[2])))
+            out.append(("w", int(t[1]), int(t[2]), int(t[5]) if len(t) > 5 else None))
         elif t[0] == "adv":
             out.append(("adv", int(t[1])))
         elif t[0] == "odm":
@@ -171,7 +201,7 @@ def case_term(c, out):
         elif o[0] == "w":
             if res != "w 0":
                 return None
-            t = "SWrite %d %d None" % (o[1], o[2])
+            t = "SWrite %d %d %s" % (o[1], o[2], copt(o[3], cz))
             pending.append(o[2])
         elif o[0] == "adv":
             t = "SAdv %d" % o[1]
